@@ -79,7 +79,17 @@ pub fn gresp() -> impl Strategy<Value = GResp> {
         .prop_map(|(status, hs, body, framing, chunk_sizes, pieces, pause_us, (tail_split, host_closes))| GResp {
             host_closes,
             status,
-            headers: hs.into_iter().map(|(i, m, v)| (gen::flip_case(RESP_HNAMES[i], m), v)).collect(),
+            headers: {
+                let mut h: Vec<(String, String)> = hs.into_iter().map(|(i, m, v)| (gen::flip_case(RESP_HNAMES[i], m), v)).collect();
+                // one response in twenty has a large (legal) header section: 20-60 fields of about 1 KB
+                if tail_split % 20 == 7 {
+                    let n = 20 + (pause_us as usize % 41);
+                    for k in 0..n {
+                        h.push((format!("x-large-{}", k), format!("{:04}-{}", k, "v".repeat(900 + (k * 7) % 300))));
+                    }
+                }
+                h
+            },
             body,
             framing,
             chunk_sizes,
@@ -185,7 +195,7 @@ pub fn storm_strategy() -> impl Strategy<Value = Case> {
         .prop_map(|(conns, key)| Case { conns: conns.into_iter().map(|(rec, exchanges, rounds)| ConnPlan { rec, exchanges, burst: false, rounds }).collect(), key })
 }
 
-pub const RULE: &str = "generator: 1-3 client connections run concurrently, each attributed to an authorised caller/destination and carrying 1-4 requests on one keep-alive connection (sequentially, or all written before any response is read, or - with small bodies - the list repeated 8-39 times back to back: a keep-alive storm): method in {GET,POST,PUT,DELETE,PATCH,HEAD,OPTIONS}, target (12% of the requests are the two signature-exempt uploads PUT /vmAgentLog and POST /machine/?comp=telemetrydata in any letter case), header multiset (a third of the requests repeat a header name two or three times), body 0 bytes .. exactly the 100 KiB limit (up to 300 KiB on the exempt uploads) as Content-Length or chunked with generated chunk sizes and write boundaries; host responses: status from 200..599 (no 1xx), header multiset incl. repeated Set-Cookie and a host-side x-ms-azure-host-claims, body 0..400 KB binary as Content-Length / chunked with generated chunk sizes / close-delimited, written in generated pieces with optional pauses, 12% of the fully framed responses on sequential connections carry 'Connection: close' and the host closes (the client, told so, continues on a new connection), the last bytes (e.g. the chunked terminator) optionally in a separate late write. Every request and response carries a unique tag. oracle: host side - method, target, de-framed body byte-equal, client header lines other than the three proxy-owned names equal as a multiset with order kept among equal names; client side - status, header lines plus exactly one x-ms-azure-host-authorization marker, body byte-equal, response tag = request tag; framing headers, Connection and Date exempt on both legs. non-trivial: an exchange with non-empty bodies in both directions and a multi-frame response, or >= 3 requests on one connection with >= 2 connections active; distinct by hash of the case.";
+pub const RULE: &str = "generator: 1-3 client connections run concurrently, each attributed to an authorised caller/destination and carrying 1-4 requests on one keep-alive connection (sequentially, or all written before any response is read, or - with small bodies - the list repeated 8-39 times back to back: a keep-alive storm): method in {GET,POST,PUT,DELETE,PATCH,HEAD,OPTIONS}, target (12% of the requests are the two signature-exempt uploads PUT /vmAgentLog and POST /machine/?comp=telemetrydata in any letter case), header multiset (a third of the requests repeat a header name two or three times), body 0 bytes .. exactly the 100 KiB limit (up to 300 KiB on the exempt uploads) as Content-Length or chunked with generated chunk sizes and write boundaries; host responses: status from 200..599 (no 1xx), header multiset incl. repeated Set-Cookie and a host-side x-ms-azure-host-claims (a few percent of the responses: 20-60 more fields of about 1 KB each), body 0..400 KB binary as Content-Length / chunked with generated chunk sizes / close-delimited, written in generated pieces with optional pauses, 12% of the fully framed responses on sequential connections carry 'Connection: close' and the host closes (the client, told so, continues on a new connection), the last bytes (e.g. the chunked terminator) optionally in a separate late write. Every request and response carries a unique tag. oracle: host side - method, target, de-framed body byte-equal, client header lines other than the three proxy-owned names equal as a multiset with order kept among equal names; client side - status, header lines plus exactly one x-ms-azure-host-authorization marker, body byte-equal, response tag = request tag; framing headers, Connection and Date exempt on both legs. non-trivial: an exchange with non-empty bodies in both directions and a multi-frame response, or >= 3 requests on one connection with >= 2 connections active; distinct by hash of the case.";
 
 const EXEMPT: &[&str] = &["content-length", "transfer-encoding", "connection", "keep-alive", "date", "te", "trailer", "upgrade"];
 const PROXY_OWNED: &[&str] = &["x-ms-azure-host-claims", "x-ms-azure-host-date", "x-ms-azure-host-authorization"];
